@@ -468,6 +468,14 @@ fn main() {
         }
     }));
     for c in &cases {
+        let annotate = |mut e: Value| -> Value {
+            for k in ["n", "tag"] {
+                if let Some(x) = c.get(k) {
+                    e[k] = x.clone();
+                }
+            }
+            e
+        };
         match get_str(c, "op") {
             "reset" => {
                 let mut e = c.clone();
@@ -492,9 +500,6 @@ fn main() {
                 let (b, berr) = decode_binary(dir, text.as_bytes());
                 let mut e = json!({"ev": "decode", "dir": dir, "style": style, "tree": c["tree"],
                                    "text": t, "bin": b, "json_len": text.len()});
-                if c.get("tag").is_some() {
-                    e["tag"] = c["tag"].clone();
-                }
                 if !terr.is_null() {
                     e["text_err"] = terr;
                 }
@@ -504,7 +509,7 @@ fn main() {
                 if text.len() <= 600 {
                     e["json"] = json!(text);
                 }
-                tr.emit(e);
+                tr.emit(annotate(e));
             }
             "roundtrip" => {
                 let dir = get_str(c, "dir");
@@ -538,7 +543,7 @@ fn main() {
                 if !berr.is_null() {
                     e["bin_err"] = berr;
                 }
-                tr.emit(e);
+                tr.emit(annotate(e));
             }
             "rawbin" => {
                 let dir = get_str(c, "dir");
@@ -554,7 +559,7 @@ fn main() {
                 if !err.is_null() {
                     e["err"] = err;
                 }
-                tr.emit(e);
+                tr.emit(annotate(e));
             }
             op => panic!("unknown op {}", op),
         }
